@@ -30,8 +30,10 @@ def run_grammar(args):
     rng = random.Random(seed * 1000003 + idx)
     if kw.get("twins") and idx % 4 == 3:
         pg = complete.twin_gen(rng)
+    elif kw.get("shared") and idx % 4 == 1:
+        pg = complete.shared_gen(rng)
     else:
-        pg = complete.probe_gen(rng, max_depth=rng.choice([2, 3, 3, 4]), **{k: v for k, v in kw.items() if k != "twins"})
+        pg = complete.probe_gen(rng, max_depth=rng.choice([2, 3, 3, 4]), **{k: v for k, v in kw.items() if k not in ("twins", "shared")})
     text = pg.text()
     rc, out, err = core.run_complgen("bash", text)
     if rc != 0:
